@@ -323,7 +323,7 @@ def compare_repr(case, ep, variant, tag, res1, res2, o, amp, precision, gap_ok, 
         return 0
     ncmp = 0
     rtol = PC_RTOL if precision else VP_RTOL
-    atol = (2e-4 if precision else 1e-10) * max(1.0, amp)
+    afac = 2e-4 if precision else 1e-10
     for name in sorted(out1):
         k = ep.spec[name]
         if k.kind == 'skip':
@@ -372,6 +372,9 @@ def compare_repr(case, ep, variant, tag, res1, res2, o, amp, precision, gap_ok, 
                 case.note(f'discrete_skipped_no_gap:{ep.name}')
                 continue
         fitted = k.rtol is not None or k.atol is not None or k.aamp is not None
+        # absolute tolerance scales with the data magnitude for flux-like (x amp) and variance-like (x amp**2)
+        # outputs and is a plain number for dimensionless / pixel outputs
+        atol = afac * (amp if k.scale == 'data' else amp * amp if k.scale == 'data2' else 1.0)
         if precision:
             rt = rtol if k.rtol is None else max(k.rtol, rtol)
             at = atol if k.atol is None else max(k.atol, atol)
@@ -381,7 +384,7 @@ def compare_repr(case, ep, variant, tag, res1, res2, o, amp, precision, gap_ok, 
             # value-preserving variants hand the library the same numbers at the same coordinates: only summation order
             # inside numpy may differ (strided vs contiguous reductions); iterative fits amplify that to <= ~1e-9
             # (measured), so fitted outputs get 1e-6 instead of the translation tolerances of C03
-            rt, at = 1e-6, 1e-6 * max(1.0, amp if k.aamp is not None else 1.0)
+            rt, at = 1e-6, 1e-6 * (amp if (k.aamp is not None or k.scale == 'data') else 1.0)
             if name.endswith('_err'):
                 # parameter uncertainties come from the covariance of a finite-difference Jacobian at the solution:
                 # measured sensitivity to a 1-ulp change of the weights (sqrt(err**2) vs err) up to 1.3e-5 relative
@@ -417,8 +420,11 @@ def run_case(case):
     flav = 'stars' if r < (0.5 if variant == 'nddata' else 0.25) else (
         'pedestal' if r < 0.45 and variant not in ('nddata', 'mixed_units') else
         'galaxy' if r < 0.58 and variant not in ('nddata', 'mixed_units', 'quantity') else 'general')
+    # generic axis (i): overall magnitude of every value-like input (integer-valued scenes of the precision-changing
+    # variants stay at scale 1: they must remain exactly representable)
+    scale = 1.0 if precision else gen.draw_scale(rng)
     scene = gen.make_scene(rng, flavour='general' if flav in ('pedestal', 'galaxy') else flav, margin=8, integer=precision,
-                           nonneg=(variant == 'uint16'))
+                           nonneg=(variant == 'uint16'), scale=scale)
     amp = scene['amp']
     if flav == 'pedestal':
         # statistics layer: large pedestal / small scatter / many pixels, integer-valued for every variant
@@ -518,4 +524,5 @@ def run_case(case):
         n = compare_repr(case, ep, variant, tag, r1, r2, o1, amp, precision, gap_ok, unit=unit)
         nonempty = r1[0].get('n', r1[0].get('nlabels', 1)) != 0
         ncmp += n if nonempty else 0
+    case.note('axis_magnitude:' + ('1' if scale == 1.0 else 'pow2' if np.log2(scale) % 1 == 0 else 'pow10'))
     case.nontrivial = ncmp > 0
